@@ -35,7 +35,13 @@ class Node:
     def next(self, contract=True):
         rng = self.rng
         if contract:
-            self.end += rng.choice([1, 1, 2, 5, 60, 3600])
+            step = rng.choice([1, 1, 2, 5, 60, 3600])
+            if rng.random() < 0.03:                       # gaps of 2^31 s and more: elapsed times are unsigned 32-bit
+                step = rng.choice([2 ** 31 - 1, 2 ** 31, 2 ** 31 + 7, 3 * 2 ** 30])
+            if self.end + step < 2 ** 32:
+                self.end += step
+            else:
+                self.end += 1
             self.tot = [t + rng.choice([0, 1, 7, 1500, 2 ** 20, rng.choice(MAGS)]) for t in self.tot]
             self.tot = [min(t, 2 ** 61) for t in self.tot]
         else:
@@ -59,7 +65,7 @@ def history(rng, tier, contract=True):
             k = rng.choice(keys)
             if k not in kinds:
                 kinds[k] = rng.choice(["intra", "intra", "inter", "inter", "external", "egress-drop"])
-                start = rng.choice([100, 1000, 1])
+                start = rng.choice([100, 1000, 1, 0])
                 nodes[k] = {"S": Node(rng, start), "D": Node(rng, start), "start": start}
             kind = kinds[k]
             per_key[k] = per_key.get(k, 0) + 1
